@@ -1768,13 +1768,17 @@ class PGPKey(Armorable, ParentRef, PGPObject):
             warnings.warn("Public keys cannot be passphrase-protected", stacklevel=2)
             return
 
-        if self.is_protected and not self.is_unlocked:
-            # we can't protect a key that is already protected unless it is unlocked first
+        # stubs without secret material (GnuPG's gnu-dummy and smartcard S2K extension) are left as they are
+        components = [sk for sk in itertools.chain([self], self.subkeys.values()) if not sk._is_stub]
+
+        if any(sk.is_protected and not sk.is_unlocked for sk in components):
+            # we can't protect a key that is already protected unless it is unlocked first; that goes for each
+            # component: encrypting a subkey that is still locked would replace its secret material with zeroes
             warnings.warn("This key is already protected with a passphrase - "
                           "please unlock it before attempting to specify a new passphrase", stacklevel=2)
             return
 
-        for sk in itertools.chain([self], self.subkeys.values()):
+        for sk in components:
             sk._key.protect(passphrase, enc_alg, hash_alg)
 
         del passphrase
